@@ -5,3 +5,4 @@ import P2P.Props.C12
 #print axioms P2P.Props.C12.charge_check_before_output
 #print axioms P2P.Props.C12.checks_first
 #print axioms P2P.Props.C12.charge_guard_spec
+#print axioms P2P.Props.C12.repair_gate_spec
